@@ -18,7 +18,7 @@ from ..core import rule, AnalysisError
 from ..engine import rx, cfg as cfgmod, flow
 from ..engine import pattern as P
 from ..engine.facts import dotted, const, src, walk_func, str_value, enclosing_stmt, ancestors
-from .common import calls, stmt_nodes, contains, pn, access_paths, assigned_from, branch_paths, resolve, resolve_deep
+from .common import calls, stmt_nodes, contains, pn, access_paths, assigned_from, branch_paths, resolve, resolve_deep, sym_cases
 
 CURSOR = ("match_position", "lineno", "matched_lineno", "matched_charpos")
 
@@ -429,11 +429,17 @@ def verbatim_flow(ctx):
     ctx.check(ok, "visitText", db.where(vt), "visitText does not emit exactly one __M_writer(repr(node.content)) (repr is what protects the text from the printer's re-indentation)", "one write of repr(content)")
     ve = db.func("codegen._GenerateRenderMethod.visitExpression")
     nd = pn(ve, 1)
-    fvars = {s_.targets[0].id for s_ in walk_func(ve) if isinstance(s_, ast.Assign) and isinstance(s_.targets[0], ast.Name) and isinstance(s_.value, ast.Call) and dotted(s_.value.func) == "self.create_filter_callable"}
+    # what is written, case by case (locals read as their values): the text itself, or the filter pipeline applied to it
+    seen_kinds = set()
     for i_, c in enumerate(calls(ve, "self.printer.writeline")):
-        a = src(c.args[0])
-        ok = P.has(c.args[0], "'__M_writer(%%s)' %% %s.text" % nd) or any(P.has(c.args[0], "'__M_writer(%%s)' %% %s" % v_) for v_ in fvars)
-        ctx.check(ok, "visitExpression:%s" % ("filtered" if "text" not in a else "plain"), db.where(c), "expression text is not placed unchanged: %s" % a, "node.text / filtered node.text")
+        for conds_, v_ in sym_cases(ve, c.args[0]):
+            a = src(v_)
+            plain = P.matches(v_, "'__M_writer(%%s)' %% %s.text" % nd)
+            filt = P.matches(v_, "'__M_writer(%s)' % self.create_filter_callable($a, $t, $e)")
+            kind = "plain" if plain else "filtered"
+            seen_kinds.add(kind)
+            ctx.check(plain or filt, "visitExpression:%s" % kind, db.where(c), "expression text is not placed unchanged: %s" % a, "node.text / filtered node.text")
+    ctx.check(seen_kinds == {"plain", "filtered"}, "visitExpression:both", db.where(ve), "visitExpression writes only %s" % sorted(seen_kinds), "a plain and a filtered write")
     cf = [c for c in calls(ve, "self.create_filter_callable")]
     ctx.check(bool(cf) and (P.has(cf[0].args[1], "'%%s' %% %s.text" % nd) or src(cf[0].args[1]) == nd + ".text"), "visitExpression.target", db.where(ve), "the filter pipeline is not applied to node.text", "filters wrap node.text")
     # the CRLF normalisations are the only edits of expression/attribute text
